@@ -20,7 +20,7 @@ from pathlib import Path
 
 VERIF = Path(__file__).resolve().parent.parent
 REPO = Path(os.environ.get('VERIF_REPO', '/repo'))
-COQ = VERIF / 'coq'
+COQ = Path(os.environ.get('VERIF_COQ_DIR') or VERIF / 'coq')
 WORK = Path(os.environ.get('VERIF_WORK_DIR') or VERIF / '.work')
 EVID = Path(os.environ.get('VERIF_EVIDENCE_DIR') or VERIF / 'evidence')
 REPLAYS = Path(os.environ.get('VERIF_REPLAY_DIR') or VERIF / 'replays')
